@@ -188,6 +188,19 @@ pub fn run(ctx: &Ctx) -> CheckResult {
             }
         }
     }
+    // single-regime runs (drift that needs one regime to persist): periods 2 and 3, O(1)-per-step subjects
+    for &n in &[2usize, 3] {
+        for &m in &[0.7, 1.1e6] {
+            for r in set.iter() {
+                for cfg in subjects(n) {
+                    if matches!(cfg.kind, Kind::Mad | Kind::Cci) {
+                        continue;
+                    }
+                    runs.push(LongRun { cfg, regimes: vec![*r], seglen: if th { 2_000_000 } else { 250_000 }, m });
+                }
+            }
+        }
+    }
     runs.sort_by_key(|r| std::cmp::Reverse(r.seglen * if matches!(r.cfg.kind, Kind::Mad | Kind::Cci) { r.cfg.p[0] } else { 1 }));
     res.extra.insert("long_runs".into(), json!(runs.len()));
     let chunks: Vec<&[LongRun]> = runs.chunks(if th { 2 } else { 4 }).collect();
@@ -226,7 +239,7 @@ pub fn run(ctx: &Ctx) -> CheckResult {
     }
     res.exhaustive = false;
     res.rule = "case = one long generated stream (period x band base x ordering of regime segments) fed to the real indicator without reset; at every 997th step, around every segment boundary and at the end the output is compared with a from-scratch double-double evaluation of the harness's own copy of the window at tolerance tau(t)*M (variances *M^2; CCI/MFI *c, gated); MIN/MAX exact; distinct by construction; non-trivial = applicable comparison".into();
-    res.bounds = format!("periods {periods:?} x band bases {bases:?} x all {}^{k} orderings of {{extremes, saw-tooth, LCG walk, plateau, spikes, stair (price rests every other step), short saw-tooth 1.1+(t mod 7)*123.456, exact triangle c,c+d,c,c-d}} (every 5th ordering for periods > 14 in thorough; O(n)-per-step subjects shortened), total length {total} per run; subjects SMA, WMA, SD, BB, MAD, CCI, MFI, MIN, MAX", set.len());
+    res.bounds = format!("periods {periods:?} x band bases {bases:?} x all {}^{k} orderings of {{extremes, saw-tooth, LCG walk, plateau, spikes, stair (price rests every other step), short saw-tooth 1.1+(t mod 7)*123.456, exact triangle c,c+d,c,c-d}} (every 5th ordering for periods > 14 in thorough; O(n)-per-step subjects shortened), total length {total} per run; plus single-regime runs of 250k / 2M steps for periods 2 and 3; subjects SMA, WMA, SD, BB, MAD, CCI, MFI, MIN, MAX", set.len());
     res.assumptions = vec![
         "systematically enumerated family of long streams, not all streams: regime orderings, periods and scales are exhaustive, regime contents follow fixed generators (the LCG walk is seeded by VERIF_SEED)".into(),
     ];
